@@ -30,7 +30,9 @@ def _case(draw, thorough):
                    'kl_clip': 1e30 if clip == 'off' else draw(st.sampled_from([1e-3, 1e-5, 1e-2])), 'lr': draw(st.sampled_from([0.1, 1.0]))},
             'clip': clip, 'steps': draw(st.integers(1, 3)), 'data_seed': draw(st.integers(0, 999)),
             'schedule': draw(st.lists(st.integers(0, 63), max_size=200)), 'flip': draw(st.booleans()), 'heuristic': draw(st.sampled_from(['compute', 'compute', 'memory'])),
-            'seq': draw(st.sampled_from([0, 0, 2, 3]))}
+            'seq': draw(st.sampled_from([0, 0, 2, 3])),
+            # AMP: loss scaled, gradients unscaled before step(), grad_scaler reports the scale; factor dtype forced or not
+            'loss_scale': draw(st.sampled_from([None, None, None, 256.0])), 'factor_dtype': draw(st.sampled_from([None, None, 'float32']))}
 
 
 class C11(Prop):
